@@ -12,6 +12,8 @@ import os
 from pathlib import Path
 
 import numpy as np
+
+from harness.common import client_logging
 from scipy.linalg import expm
 from scipy.spatial.transform import Rotation
 
@@ -399,7 +401,10 @@ class World:
         """Execute one abstract action; return the outcome class."""
         a = act["a"]
         try:
-            getattr(self, "_" + a)(act)
+            # the client's logging configuration (as found / silenced / DEBUG) differs from world to world; what the
+            # library does must not depend on it
+            with client_logging(getattr(World, "_count", 0)):
+                getattr(self, "_" + a)(act)
             err = None
         except BaseException as e:  # noqa: BLE001 - outcome classification is the point
             if isinstance(e, (KeyboardInterrupt, SystemExit, MemoryError)):
